@@ -412,17 +412,10 @@ Definition enc_raw (c : nat) (e : rcexpr) : list form :=
   | CDistinctWorkers s1 s2 =>
       map (fun r => FNot (FAnd [FB (BSel (s_ref s1) r); FB (BSel (s_ref s2) r)])) (common_sel s1 s2)
   | CLoad _ _ _ | CUnload _ _ _ => []
-  | CIndTarget _ _ | CIndBounds _ _ _ => []      (* these bypass set_z3_assertions, see enc_direct *)
-  end.
-
-(* assertions appended with append_z3_assertion directly (never wrapped by `applied`) *)
-Definition enc_direct (e : rcexpr) : list form :=
-  match e with
   | CIndTarget i v => [FEq (TV (VInd i)) (TC v)]
   | CIndBounds i lo hi =>
       (match lo with Some l => [FGe (TV (VInd i)) (TC l)] | None => [] end) ++
       (match hi with Some h => [FLe (TV (VInd i)) (TC h)] | None => [] end)
-  | _ => []
   end.
 
 (* Constraint.set_z3_assertions *)
@@ -430,4 +423,4 @@ Definition cemit (c : nat) (opt : bool) (f : form) : form :=
   if opt then FImp (FB (BApplied c)) f else f.
 
 Definition enc_cons (c : nat) (opt : bool) (e : rcexpr) : list form :=
-  map (cemit c opt) (enc_raw c e) ++ enc_direct e.
+  map (cemit c opt) (enc_raw c e).
